@@ -77,3 +77,61 @@ def run (cfg : Cfg) (sch : Sched) : Nat → G → G
   | n + 1, g => run cfg (fun k => sch (k + 1)) n (gstep cfg g (sch 0).1 (sch 0).2)
 
 end NeoModel.VmGas
+
+/-! ### the instruction cycle as an ordered list of phases
+
+`gstep` above is vm.go's `execute` written as one expression. The same function, written as the
+interpretation of an ORDERED list of phases, so that the order itself is a value that can be compared
+with the order regenerated from the source (Generated/VmOrder.lean `executeSeq`,
+Proofs/VmAcctOrder.lean `order_eq_table`, `gstep_eq_order`). -/
+namespace NeoModel.VmGas
+
+inductive Phase where
+  | price        -- p := v.getPrice(op, parameter)                    vm.go:741
+  | add          -- v.gasConsumed += p                                vm.go:742
+  | compare      -- if gasLimit >= 0 && gasConsumed > gasLimit: panic vm.go:743
+  | pushint      -- `if op <= PUSHINT256 { push; return }`            vm.go:748
+  | dispatch     -- `switch op { … }`                                 vm.go:753
+  | recover      -- deferred: a panic becomes FAULT                   vm.go:730
+  | sizeCheck    -- deferred, only without a panic: refs > MaxStackSize ⇒ FAULT  vm.go:733
+deriving DecidableEq, Repr
+
+def Phase.name : Phase → String
+  | .price => "gas-price" | .add => "gas-add" | .compare => "gas-compare"
+  | .pushint => "dispatch-pushint" | .dispatch => "dispatch"
+  | .recover => "deferred:recover" | .sizeCheck => "deferred:size-check"
+
+/-- the order in which `execute` goes through the phases -/
+def order : List Phase := [.price, .add, .compare, .pushint, .dispatch, .recover, .sizeCheck]
+
+/-- what the body of the instruction does to (gas, depth, status); a SYSCALL handler's own charge goes
+through AddGas (`addPicoGasInternal`: add, then compare) -/
+def applyEff (cfg : Cfg) (g : G) : Eff → G
+  | .fault => { g with status := .fault }
+  | .cont d => { g with depth := d }
+  | .ret => if g.depth ≤ 1 then { g with depth := 0, status := .halt } else { g with depth := g.depth - 1 }
+  | .sys c d => if g.gas + c > cfg.limit then { g with gas := g.gas + c, status := .fault } else { g with gas := g.gas + c, depth := d }
+
+structure PS where
+  g : G
+  price : Nat := 0
+
+def opPUSHINT256 : Nat := 0x05
+
+def runPhase (cfg : Cfg) (op : Nat) (e : Eff) : Phase → PS → PS
+  | .price, s => { s with price := cfg.base * coeff op }
+  | .add, s => { s with g := { s.g with gas := s.g.gas + s.price } }
+  | .compare, s => if s.g.gas > cfg.limit then { s with g := { s.g with status := .fault } } else s
+  | .pushint, s => if op ≤ opPUSHINT256 then { s with g := applyEff cfg s.g e } else s
+  | .dispatch, s => if op ≤ opPUSHINT256 then s else { s with g := applyEff cfg s.g e }
+  | .recover, s => s       -- the panic of an instruction is already the status FAULT of `applyEff`
+  | .sizeCheck, s => s     -- the item counter is not part of this machine (VmAcct.step has it, last)
+
+/-- one instruction cycle for an arbitrary order of the phases; a phase runs only while the machine
+is still running (a panic skips the rest of the body; the deferred phases change nothing here) -/
+def gstepWith (ord : List Phase) (cfg : Cfg) (g : G) (op : Nat) (e : Eff) : G :=
+  match g.status with
+  | .halt | .fault => g
+  | .running => (ord.foldl (fun s ph => if s.g.status = .running then runPhase cfg op e ph s else s) ({ g := g } : PS)).g
+
+end NeoModel.VmGas
